@@ -647,13 +647,13 @@ def newton(repo, run, rule_id="C02.4"):
 
 
 # ------------------------------------------------------------------------------------------------
-def splitting_clock(repo, run):
+def splitting_clock(repo, run, rule_id="C02.5"):
     """'For splitting methods the step is the stated composition of drift and kick sub-steps': sub-step s evaluates the right-hand side at the time reached by the
     drift sub-steps BEFORE it, t0 + h*sum_{r<s} d_r, and at the state y0 + (increments of the sub-steps before it).  The loop body of
     ExplicitSymplecticIntegrator.step is executed symbolically for the first three stages (polynomials in t0, h, the table entries and one fresh symbol per
     right-hand-side value) and the arguments of each evaluation are compared with that specification."""
     from ..sym import Poly
-    rid = run.rule("C02.5", "splitting step, by symbolic execution of the stage loop for stages 0..2: stage s evaluates rhs at time t0 + h*sum_{r<s} T[r,drift] and at state "
+    rid = run.rule(rule_id, "splitting step, by symbolic execution of the stage loop for stages 0..2: stage s evaluates rhs at time t0 + h*sum_{r<s} T[r,drift] and at state "
                             "y0 + sum_{r<s} h*F_r*(T[r,drift]*drift_mask + T[r,kick]*kick_mask)", floor=6)
     fn = repo.get(ITY, extract.SPLIT + ".step")
     run.analysed_fn(ITY, fn)
@@ -669,8 +669,13 @@ def splitting_clock(repo, run):
     svar = loop.target.id
     env = {}
     calls = []
+    decisions = []      # preset outcomes of the data-dependent branches met, in order (every combination is explored: see below)
+    taken = []
 
     class Unsupported(Exception):
+        pass
+
+    class NeedMore(Exception):
         pass
 
     def ev(n, s):
@@ -720,7 +725,13 @@ def splitting_clock(repo, run):
                         if opf is not None:
                             run_block(st.body if opf(l.const_value(), r.const_value()) else st.orelse, s)
                             continue
-                raise Unsupported("branch on `%s`" % src(t)[:50])
+                # a data-dependent branch (e.g. `if <cached slope is valid>:`): both outcomes are explored, one complete execution per combination
+                if len(taken) >= len(decisions):
+                    raise NeedMore()
+                d = decisions[len(taken)]
+                taken.append((src(t)[:70], d))
+                run_block(st.body if d else st.orelse, s)
+                continue
             elif isinstance(st, ast.Assign) and len(st.targets) == 1:
                 v = ev(st.value, s)
                 t = st.targets[0]
@@ -743,13 +754,41 @@ def splitting_clock(repo, run):
                     ev(st.value, s)
             else:
                 raise Unsupported(type(st).__name__)
-    try:
-        pre = fn.body[:fn.body.index(loop)]
-        run_block([st for st in pre if not (isinstance(st, ast.Expr) and isinstance(st.value, ast.Constant))], 0)
-        for s in (0, 1, 2):
-            run_block(loop.body, s)
-    except Unsupported as e:
-        raise AnalysisError("ExplicitSymplecticIntegrator.step: construct outside the symbolic executor: %s" % e)
+    import itertools
+    K = 0
+    paths = []
+    while True:
+        need = False
+        paths = []
+        for combo in itertools.product((True, False), repeat=K):
+            env.clear()
+            del calls[:]
+            del taken[:]
+            decisions[:] = list(combo)
+            try:
+                pre = fn.body[:fn.body.index(loop)]
+                run_block([st for st in pre if not (isinstance(st, ast.Expr) and isinstance(st.value, ast.Constant))], 0)
+                for s in (0, 1, 2):
+                    run_block(loop.body, s)
+            except NeedMore:
+                need = True
+                break
+            except Unsupported as e:
+                raise AnalysisError("ExplicitSymplecticIntegrator.step: construct outside the symbolic executor: %s" % e)
+            paths.append((list(taken), list(calls)))
+        if not need:
+            break
+        K += 1
+        if K > 5:
+            raise AnalysisError("ExplicitSymplecticIntegrator.step: too many data-dependent branches for the symbolic executor")
+    for taken_, calls_ in paths:
+        if _judge_splitting_path(run, rid, rule_id, loop, taken_, calls_, dcol, kcol):
+            return
+
+
+def _judge_splitting_path(run, rid, rule_id, loop, taken, calls, dcol, kcol):
+    from ..sym import Poly
+    where = (" on the path [%s]" % "; ".join("%s is %s" % td for td in taken)) if taken else ""
     t0, y0, h = Poly.atom("t0"), Poly.atom("y0"), Poly.atom("h")
     want_t, want_y = t0, y0
     per_stage = {}
@@ -758,9 +797,9 @@ def splitting_clock(repo, run):
     for s in (0, 1, 2):
         if len(per_stage.get(s, [])) != 1:
             run.judged(rid, "stage %d: exactly one right-hand-side evaluation (%d found)" % (s, len(per_stage.get(s, []))), ok=False)
-            run.report("C02.5", ITY, loop, "sub-step %d of the splitting step evaluates the right-hand side %d times (exactly once is the stated composition)" % (s, len(per_stage.get(s, []))),
+            run.report(rule_id, ITY, loop, "sub-step %d of the splitting step evaluates the right-hand side %d times%s (exactly once, at its own argument, is the stated composition: a slope carried over from another call belongs to another state, right-hand side or set of constants)" % (s, len(per_stage.get(s, [])), where),
                        text="rhs evaluations per splitting stage")
-            return
+            return True
         node, gt, gy = per_stage[s][0]
         if any(a_.startswith("?") for p_ in (gt, gy) for a_ in p_.atoms()):
             raise AnalysisError("ExplicitSymplecticIntegrator.step: a value the symbolic executor cannot follow reaches the right-hand side's arguments: %s / %s" % (
@@ -768,16 +807,17 @@ def splitting_clock(repo, run):
         okt = gt == want_t
         run.judged(rid, "stage %d time argument: %s" % (s, gt.canon()), ok=okt)
         if not okt:
-            run.report("C02.5", ITY, node.args[0], "sub-step %d evaluates the right-hand side at time %s; the composition evaluates it at %s (the time reached by the drift "
+            run.report(rule_id, ITY, node.args[0], "sub-step %d evaluates the right-hand side at time %s; the composition evaluates it at %s (the time reached by the drift "
                                                    "sub-steps before it): for a right-hand side whose drift part depends on t the step is not the stated composition" % (
                                                        s, gt.canon(), want_t.canon()))
         oky = gy == want_y
         run.judged(rid, "stage %d state argument: %s" % (s, gy.canon()), ok=oky)
         if not oky:
-            run.report("C02.5", ITY, node.args[1], "sub-step %d evaluates the right-hand side at state %s; the composition evaluates it at %s" % (s, gy.canon(), want_y.canon()))
+            run.report(rule_id, ITY, node.args[1], "sub-step %d evaluates the right-hand side at state %s; the composition evaluates it at %s" % (s, gy.canon(), want_y.canon()))
         F = Poly.atom("F%d" % s)
         want_t = want_t + h * Poly.atom("T[%d,%d]" % (s, dcol))
         want_y = want_y + h * F * (Poly.atom("T[%d,%d]" % (s, dcol)) * Poly.atom("self.drift_mask") + Poly.atom("T[%d,%d]" % (s, kcol)) * Poly.atom("self.kick_mask"))
+    return False
 
 
 def stage_tolerance(repo, run, rule_id="C02.6"):
